@@ -413,7 +413,7 @@ ORACLES = {'C01': oracle_C01, 'C02': oracle_C02, 'C03': oracle_C03, 'C11': oracl
 # campaigns
 # ---------------------------------------------------------------------------------------------
 
-def dynamics_spec(rng, ctx, *, sl_bias=0.35, schedule=True):
+def dynamics_spec(rng, ctx, *, sl_bias=0.35, schedule=True, kind=None, same_solver=None):
     """a random model with a short schedule (whole-history correspondence: <= 16 steps in total)"""
     ru = rng.random() < 0.7
     spec = gen.gen_spec(rng, random_units=ru, sl_bias=sl_bias, reuse=0.25)
@@ -429,7 +429,7 @@ def dynamics_spec(rng, ctx, *, sl_bias=0.35, schedule=True):
             for r in spec['rules']:
                 r['start'] = [r['start'][0] * 1000, 'ms'] if rng.random() < 0.5 else r['start']
     ops = []
-    kind = rng.choice(['single', 'split', 'split', 'reset', 'stop']) if schedule else 'single'
+    kind = kind or (rng.choice(['single', 'split', 'split', 'reset', 'stop']) if schedule else 'single')
     if kind == 'single':
         op, _, _ = gen.run_op(rng, dt_si=dt, steps=(total, total), unit=unit)
         ops = [op]
@@ -443,7 +443,7 @@ def dynamics_spec(rng, ctx, *, sl_bias=0.35, schedule=True):
         o1, _, _ = gen.run_op(rng, dt_si=dt, steps=(n1, n1), unit=unit)
         o2, _, _ = gen.run_op(rng, dt_si=dt, steps=(total - n1, total - n1), unit=unit)
         ops = [o1, {'op': 'reset'}, {'op': 'init', 'pos': spec['init']['pos'], 'speed': spec['init']['speed']}]
-        if rng.random() < 0.5:
+        if (rng.random() < 0.5) if same_solver is None else (not same_solver):
             ops.append({'op': 'new'})
         ops.append(o2)
     else:
@@ -698,11 +698,14 @@ def eval_axis(ctx, cases):
         recs = []
         for op in ops:
             before = len(b.pt.time)
+            undo = sim.guard_run(b.pt, op['dt'], op['T'])
             try:
                 solver.run(time_discretization=sim.Q('TimeInterval', op['dt']), simulation_time=sim.Q('TimeInterval', op['T']))
             except Exception as ex:  # noqa: BLE001
                 err = type(ex).__name__
                 break
+            finally:
+                undo()
             recs.append({'op': 'run', 'n_before': before, 'n_after': len(b.pt.time), 'pwm_before': 1.0, 'locked_before': False})
         t = [sim.qsi(x) for x in b.pt.time]
         spec['ops'] = [{'op': 'run', 'dt': o['dt'], 'T': o['T'], 'stop': None} for o in ops]
@@ -719,11 +722,15 @@ def eval_axis(ctx, cases):
         ctx.case_done(c, nontrivial=err is None and len(tr['time']) > 2)
         ctx.count('unit ' + c['dt'][1] + '/' + c['T'][1])
         ctx.count('continued' if c.get('first') else 'fresh')
+        if c.get('inplace'):
+            ctx.count('dt / T re-expressed in place before the run')
         if err is not None:
             ctx.count('run rejected ' + err)
             dtsi = float(F(c['dt'][0]) * SI['TimeInterval'][c['dt'][1]])
             Tsi = float(F(c['T'][0]) * SI['TimeInterval'][c['T'][1]])
-            if not (err == 'ValueError' and dtsi >= Tsi * (1 - 1e-9)):
+            if err == 'Runaway':
+                ctx.violation(c, {'why': f'the time axis overruns: more than {sim.expected_steps(c["dt"], c["T"])} + 64 instants were appended'})
+            elif not (err == 'ValueError' and dtsi >= Tsi * (1 - 1e-9)):
                 ctx.violation(c, {'why': f'run raised {err} for dt < T'})
             continue
         for msg, det in oracle_C11(spec, tr)[:1]:
@@ -783,6 +790,13 @@ def run_C11(ctx):
             u0 = rng.choice(units)
             c['first'] = {'dt': [float(F(dt) / SI['Time'][u0]) if u0 != 'sec' else dt, u0],
                           'T': [float(F(dt * n0) / SI['Time'][u0]) if u0 != 'sec' else dt * n0, u0]}
+        if rng.random() < 0.2:
+            # dt and / or T were created in another unit and re-expressed in place before the run
+            for d in [c] + ([c['first']] if c.get('first') else []):
+                for k in ('dt', 'T'):
+                    if rng.random() < 0.6:
+                        d[k] = d[k] + [rng.choice([u for u in units if u != d[k][1]])]
+            c['inplace'] = True
         cases.append(c)
     # the input that used to overrun, and its relatives
     cases += [{'t': 'axis', 'dt': [0.35, 'sec'], 'T': [10.5, 'sec'], 'literal': True},
@@ -794,9 +808,11 @@ def run_C11(ctx):
         eval_axis(ctx, cases[i:i + 500])
     # the axis of complete simulations (with stop conditions) as well
     specs = [dynamics_spec(ctx.rng, ctx) for _ in range(ctx.budget(40, 600))]
+    # run, reset, run again on the same Solver object: the axis restarts at 0
+    specs += [dynamics_spec(ctx.rng, ctx, kind='reset', same_solver=True) for _ in range(ctx.budget(12, 150))]
     eval_dynamics(ctx, specs, ['C11'])
     ctx.rule = ('decimal time steps m*10^-e (m <= 999, e <= 4) x step counts, T given as dt*n or as a decimal literal, '
-                'dt and T in any of the four time units, fresh and continued runs, through the real Solver.run with the '
+                'dt and T in any of the four time units (also created in one unit and converted in place to another), fresh and continued runs, through the real Solver.run with the '
                 'per-instant physics replaced by no-ops inside the harness process; plus complete simulations; '
                 'non-trivial = more than 2 instants recorded')
 
